@@ -27,7 +27,7 @@ def h_dt(f, k, m, pastify=False, defs=None, style='sub', jitter=False, rounds=1)
     def mk():
         if defs_list:
             return _specs(style, defs_list, f, vs, 'combined', _mk_dt, pastify)[0]
-        return dt.make_spec('combined', 'out = ' + text(f), vs, pastify=pastify)
+        return dt.make_spec('combined', 'out = ' + text(f), vs, pastify=pastify, f=f)
 
     def body(env):
         A = env.A
@@ -133,6 +133,12 @@ def obligations(tier, rng):
                               pastify=True))
     out.append(ob('C10', 'dt', 'dt/pastified/%s/k=2/resets=2' % text(('eventually_t', X, 0, 2)), f=('eventually_t', X, 0, 2), k=2, m=m + 1, pastify=True, rounds=2))
     out.append(ob('C10', 'dt', 'dt/subspec/p=prev(x)/out=(p) and (z)/k=2/resets=2', f=('and', Pn, Z), defs=[['p', ('prev', X)]], k=2, m=m, rounds=2))
+    from .. import pool
+    for i, g in enumerate(pool.ALL):
+        fut = refsem.has_future(g)
+        for k, rounds in ([(3, 1 + i % 2)] if quick else [(0, 1), (3, 1), (2, 2)]):
+            out.append(ob('C10', 'dt', 'dt/pool/%s/P=%s/unit=%s/k=%d/resets=%d' % (g[1], g[3] or '-', g[4] or '-', k, rounds), f=g, k=k, m=refsem.hor(g) + 4 if fut else 5,
+                          pastify=fut, rounds=rounds))
     if not quick:
         nodiv = [k for k in PAST_OPS if k != 'div']
         f2 = refsem.depth2(nodiv, nodiv, [(0, 1), (1, 2)])
